@@ -44,6 +44,14 @@ def membersOf (m : ℕ) (j : Json) : Except String (List Member) := do
     let raw ← rawTerms (← mj.getObjVal? "terms")
     pure { w := w, terms := termsOver m (universeOf raw) raw }
 
+/-- members over ONE tag universe for the whole mixture, so that equal annotated basis states of two members
+have equal `groups` (`sameKey`) -/
+def membersOfGlobal (m : ℕ) (j : Json) : Except String (List Member) := do
+  let raws ← (← j.getArr?).toList.mapM fun mj => do
+    pure (← ratOfJson (← mj.getObjVal? "w"), ← rawTerms (← mj.getObjVal? "terms"))
+  let univ := firstOcc (raws.flatMap fun r => universeOf r.2)
+  pure (raws.map fun r => { w := r.1, terms := termsOver m univ r.2 })
+
 def anyTagged (j : Json) : Except String Bool := do
   let ms ← (← j.getArr?).toList.mapM fun mj => do rawTerms (← mj.getObjVal? "terms")
   pure (ms.any fun ts => ts.any fun t => t.2.any fun mode => mode.any (· != 0))
@@ -91,7 +99,7 @@ def handleE (j : Json) : Except String Json := do
         ("pa", Json.arr pa.toArray)]
     | "svd" =>
       let ⟨m, U⟩ ← matOfJson j
-      let ms ← membersOf m (← j.getObjVal? "members")
+      let ms ← membersOfGlobal m (← j.getObjVal? "members")
       let prec ← ratOfJson (← j.getObjVal? "prec")
       let minp ← ratOfJson (← j.getObjVal? "minp")
       let pre := preprocess prec minp ms
@@ -103,6 +111,7 @@ def handleE (j : Json) : Except String Json := do
         ("keptExact", distToJson (normalize (probsSVD U (pre.kept.map fun mb => (mb.w, mb.terms))))),
         ("theta", ratToJson pre.θ), ("superposed", toJson pre.superposed),
         ("kept", toJson pre.kept.length), ("keptTerms", toJson (pre.kept.map (·.terms.length))),
+        ("keptW", toJson (pre.kept.map fun mb => ratToJson mb.w)),
         ("cutMass", ratToJson (totW - keptW)), ("totalW", ratToJson totW),
         ("members", Json.arr (ms.map fun mb => distToJson (probsSV U mb.terms)).toArray)]
     | "dm" =>
